@@ -74,8 +74,9 @@ def plan(chk: Check):
     for n, nu, nd, kind, kf, kc in shapes(chk.tier):
         for j in range(kf + kc):
             iid += 1
+            want = "free" if j < kf else ("dead" if (j == kf and n <= 3) else "constrained")
             insts.append(cpmc.gen_instance(
-                iid, rng, n, nu, nd, kind, uniform=(kind == "uhf" and j % 2 == 0), want_free=j < kf,
+                iid, rng, n, nu, nd, kind, uniform=(kind == "uhf" and j % 2 == 0), want=want,
                 spin_m=(j % 3 == 2), lattice="grid" if (n == 4 and j % 2 == 1) else "chain"))
     return insts
 
